@@ -1,0 +1,81 @@
+//go:build verif
+
+package astits
+
+import (
+	"bytes"
+	"time"
+
+	"github.com/asticode/go-astikit"
+)
+
+// This file only exists when the "verif" build tag is set. It exports existing pure functions so that
+// external runtime monitors can observe them; it changes no behaviour.
+
+func VerifComputeCRC32(bs []byte) uint32 { return computeCRC32(bs) }
+
+func VerifUpdateCRC32(crc uint32, bs []byte) uint32 { return updateCRC32(crc, bs) }
+
+func VerifCRC32Table() [256]uint32 { return tableCRC32 }
+
+func VerifParsePSIData(payload []byte) (*PSIData, error) {
+	return parsePSIData(astikit.NewBytesIterator(payload))
+}
+
+func VerifWritePSIData(d *PSIData) ([]byte, int, error) {
+	buf := &bytes.Buffer{}
+	w := astikit.NewBitsWriter(astikit.BitsWriterOptions{Writer: buf})
+	n, err := writePSIData(w, d)
+	return buf.Bytes(), n, err
+}
+
+func VerifParseDescriptors(bs []byte) ([]*Descriptor, int, error) {
+	i := astikit.NewBytesIterator(bs)
+	ds, err := parseDescriptors(i)
+	return ds, i.Offset(), err
+}
+
+func VerifWriteDescriptorsWithLength(ds []*Descriptor) ([]byte, int, error) {
+	buf := &bytes.Buffer{}
+	w := astikit.NewBitsWriter(astikit.BitsWriterOptions{Writer: buf})
+	n, err := writeDescriptorsWithLength(w, ds)
+	return buf.Bytes(), n, err
+}
+
+func VerifParseDVBTime(bs []byte) (time.Time, error) {
+	return parseDVBTime(astikit.NewBytesIterator(bs))
+}
+
+func VerifWriteDVBTime(t time.Time) ([]byte, int, error) {
+	buf := &bytes.Buffer{}
+	w := astikit.NewBitsWriter(astikit.BitsWriterOptions{Writer: buf})
+	n, err := writeDVBTime(w, t)
+	return buf.Bytes(), n, err
+}
+
+func VerifParseDVBDurationMinutes(bs []byte) (time.Duration, error) {
+	return parseDVBDurationMinutes(astikit.NewBytesIterator(bs))
+}
+
+func VerifParseDVBDurationSeconds(bs []byte) (time.Duration, error) {
+	return parseDVBDurationSeconds(astikit.NewBytesIterator(bs))
+}
+
+func VerifWriteDVBDurationMinutes(d time.Duration) ([]byte, int, error) {
+	buf := &bytes.Buffer{}
+	w := astikit.NewBitsWriter(astikit.BitsWriterOptions{Writer: buf})
+	n, err := writeDVBDurationMinutes(w, d)
+	return buf.Bytes(), n, err
+}
+
+func VerifWriteDVBDurationSeconds(d time.Duration) ([]byte, int, error) {
+	buf := &bytes.Buffer{}
+	w := astikit.NewBitsWriter(astikit.BitsWriterOptions{Writer: buf})
+	n, err := writeDVBDurationSeconds(w, d)
+	return buf.Bytes(), n, err
+}
+
+// VerifParsePESData exposes parsePESData on a reassembled PES unit.
+func VerifParsePESData(bs []byte) (*PESData, error) {
+	return parsePESData(astikit.NewBytesIterator(bs))
+}
